@@ -642,9 +642,11 @@ func vfQrDemuxWalk(t *testing.T, res *vfh.Result, inst string, conf vfQrDmConf, 
 	}
 }
 
-// vfQrDemuxProduction: the code's own queue length (16), two protocol listeners on one address: 17 connections per protocol;
-// 16 are queued, the 17th is closed with "queue full", the other listener is not affected, Accept returns them in order.
+// vfQrDemuxProduction: the code's own queue (as built: 16 slots, NOT re-made by the harness), two protocol listeners on one
+// address: 17 connections per protocol; 16 are queued, the 17th is closed with "queue full", the other listener is not
+// affected, Accept returns them in order.
 func vfQrDemuxProduction(t *testing.T, cert tls.Certificate, res *vfh.Result) {
+	const queueLen = 16 // the as-built capacity; the package constant is deliberately not read
 	synctest.Test(t, func(t *testing.T) {
 		r := &vfQrDmRun{t: t, conf: vfQrDmConf{QueueLen: queueLen}, cert: cert}
 		if err := r.start(); err != nil {
